@@ -72,14 +72,13 @@ def finalize(self):
     modifies(self.title, self.message, self.hide_correctness, self.score, self.success, self.correct)
     raises_nothing()
     ensures("returns_self", result is self)
-    ensures("default_text", implies(nothing_shown and hidden(self), self.title == 'No Errors'
+    ensures("default_text", implies(nothing_shown and (hidden(self) or not truthy(old(self.correct))), self.title == 'No Errors'
                                     and self.message == 'No errors reported.'))
     ensures("shown_text_kept", implies(not nothing_shown, self.message == old(self.message)
                                        and self.title == old(self.title)))
-    ensures("correct_is_conjunction", implies(not nothing_shown or hidden(self),
-                                              self.correct is truthy(old(self.correct))))
+    ensures("correct_is_conjunction", self.correct is truthy(old(self.correct)))
     ensures("correct_when_nothing_shown", implies(nothing_shown and not hidden(self) and old(self.label) == 'set_correct_no_errors'
-                                                  and old(self.category) == 'complete',
+                                                  and old(self.category) == 'complete' and truthy(old(self.correct)),
                                                   self.correct is True and eqv(self.score, 1)
                                                   and self.title == 'Complete' and self.message == 'Great work!'))
     ensures("score_is_rounded_sum", implies(not nothing_shown, is_number(self.score) and (real(self.score) == score_total(items(self._scores), nitems(self._scores))
